@@ -30,7 +30,8 @@ REQUIRED_MONITORS = ["q_calc_positive_increasing", "linear", "gaussian_hankel_pa
                      "acceptance_masks_integral", "background_does_not_leak", "construction_order_independent"]
 REQUIRED_BUCKETS = {"quick": ["grid:linear", "grid:log", "n:1", "n:2..9", "n:10..200", "gaussians:1", "gaussians:>1",
                               "acceptance:open", "acceptance:cut", "via:Gxi", "via:DirectModel", "wavelength:short",
-                              "acceptance:on-data-tof", "acceptance:on-data-mono", "order:permuted"]}
+                              "acceptance:on-data-tof", "acceptance:on-data-mono", "order:permuted",
+                              "via:DirectModel:data-edited-in-place"]}
 REQUIRED_BUCKETS["thorough"] = REQUIRED_BUCKETS["quick"]
 
 
@@ -214,6 +215,18 @@ def run_direct(case, rec):
                   {"via": "DirectModel scale x3", "max_abs_diff": float(np.max(np.abs(G4 - 3*G2)))})
         rec.bucket("via:DirectModel")
         rec.set_shape(("direct", rep), True)
+        # the spin-echo lengths of the same data object edited in place (same array object, same length), then a
+        # new calculator on it: the values belong to the current lengths
+        data.x *= 1.37
+        if getattr(data, "lam", None) is None and hasattr(data, "source"):
+            pass
+        xi_new = np.asarray(data.x, float).copy()
+        G5 = np.asarray(direct_model.DirectModel(data, sascore.load_model("guinier"))(background=0.0, **pars), float)
+        exact5 = exact_pair(xi_new, [pars["scale"]], [s])
+        rec.check("gaussian_hankel_pair", bool(np.all(np.abs(G5 - exact5) <= 1e-3*float(np.max(np.abs(exact5))))),
+                  {"via": "DirectModel on the same data object after data.x was scaled in place", "rg": rg,
+                   "got": G5[:5], "exact": exact5[:5], "exact_at_old_lengths": exact[:5]})
+        rec.bucket("via:DirectModel:data-edited-in-place")
         # --- acceptance set on the data object (angle theta_max), constant and time-of-flight style wavelengths
         from scipy.integrate import quad
         from scipy.special import j0
